@@ -1,2 +1,59 @@
-/-! Stub driver: the model driver for this property is not built yet. -/
-def main : IO Unit := IO.println "unimplemented"
+import JoblibModel.Store
+import JoblibModel.StoreIO
+import JoblibModel.IOUtil
+/-! Driver for C05 (model `JoblibModel.Store`).
+
+Requests
+* `hist ORDER FIRSTLINE SRC0 SRC1 | PROC | PROC | …` — a sequential history of processes on an initially empty scratch
+  directory. `ORDER` = kernel directory-entry order (comma-separated names, `-` = none), `SRCk` = source text of version
+  k (hex, `-` = empty). `PROC` = `call:a=3,ver=0,cb=none|long|now,shelve=0|1,me=0,legacy=0|1[,compress=1][,kill=K[,torn=N]]`
+  | `reduce:me=0,victims=4.5[,kill=K]` | `clear:me=0[,kill=K]`; `kill=K` = SIGKILL after K system calls (the K-th torn
+  to N bytes when it is a write).
+  Reply: `LOG => OUTCOME | LOG => OUTCOME | …`, `LOG` = `op;op;…` in the syntax of harness/fstrace.py,
+  `OUTCOME` = `ok v<ver>.<arg>` | `ok done` | `raise <ExceptionClass>` | `killed`.
+* `code SRC CONTENT` — `_check_previous_func_code`'s reading of `CONTENT` against live source `SRC` (first line 1):
+  `same` | `differs` | `valueError`.
+Anything else: `bad-op`. -/
+open JoblibModel JoblibModel.Store JoblibModel.StoreIO JoblibModel.IOUtil
+
+def runHistory (env : Env) : List String → FS → Option (List String)
+  | [], _ => some []
+  | p :: rest, fs =>
+    match parseProc env p.trimAscii.toString with
+    | some (ps, l) =>
+      let r := runOne env.order ps l fs
+      (runHistory env rest r.2).map (r.1 :: ·)
+    | none => none
+
+def parseEnv (hd : String) (kw : String) : Option Env :=
+  match tokens hd with
+  | [k, order, fl, s0, s1] =>
+    if k ≠ kw then none else do
+      let o ← parseNames order
+      let f ← fl.toNat?
+      let b0 ← parseHex s0
+      let b1 ← parseHex s1
+      pure ⟨o, f, [b0, b1]⟩
+  | _ => none
+
+def handle (line : String) : String :=
+  match tokens line with
+  | ["code", src, content] =>
+    match parseHex src, parseHex content with
+    | some s, some c =>
+      match checkCodeImpl s c with
+      | .same => "same" | .differs => "differs" | .valueError => "valueError"
+    | _, _ => "bad-op"
+  | "hist" :: _ =>
+    match line.trimAscii.toString.splitOn " | " with
+    | hd :: procs =>
+      match parseEnv hd "hist" with
+      | some env =>
+        match runHistory env procs FS.empty with
+        | some outs => " | ".intercalate outs
+        | none => "bad-op"
+      | none => "bad-op"
+    | [] => "bad-op"
+  | _ => "bad-op"
+
+def main : IO Unit := lineLoop handle
